@@ -323,9 +323,12 @@ def run_one(ns, i, seed_i, tier):
     counters["probe:multiple_outputs"] = int(len(case["outs"]) >= 2)
     counters["probe:stale_output_overwritten"] = int(bool(obs0["truncated"]))
 
+    # programs that are expensive for pdpy11 itself (DESIGN 12.4) get fewer repetitions
+    expensive = obs0["forces"] > 40_000
+    counters["probe:expensive_program_limited"] = int(expensive)
     # rule 2: configuration invariance
     if not violations:
-        for _ in range(rng.randint(3, 5)):
+        for _ in range(rng.randint(3, 5) if not expensive else 1):
             argv2, fmt = cliwork.variant_argv(op["argv"], case["info"], rng)
             op2 = dict(op, argv=argv2)
             obsv = run(ns, op2)
@@ -345,7 +348,9 @@ def run_one(ns, i, seed_i, tier):
             for f in rng.sample(sites, min(len(sites), rng.choice([1, 1, 2, 3]))):
                 plan.append(dict(f, arg=rng.choice([0.0, 0.3, 0.5, 0.9, 1.0])))
             plans.append(plan)
-        sweep = rng.random() < (0.12 if tier == "quick" else 0.3) and len(sites) <= 120
+        sweep = rng.random() < (0.12 if tier == "quick" else 0.3) and len(sites) <= 120 and not expensive
+        if expensive:
+            plans = plans[:1]
         if sweep:
             counters["sweeps"] += 1
             plans += [[dict(f, arg=0.5)] for f in sites]
